@@ -488,6 +488,7 @@ pub fn def() -> PropDef {
                 cases_quick: 40_000,
                 cases_thorough: 600_000,
                 max_shrink_iters: 3000,
+                limit_factor: 1,
                 strategy: hll_case,
                 check: hll_images,
             }),
@@ -497,6 +498,7 @@ pub fn def() -> PropDef {
                 cases_quick: 60_000,
                 cases_thorough: 800_000,
                 max_shrink_iters: 3000,
+                limit_factor: 1,
                 strategy: theta_case,
                 check: theta_images,
             }),
@@ -506,6 +508,7 @@ pub fn def() -> PropDef {
                 cases_quick: 100_000,
                 cases_thorough: 1_500_000,
                 max_shrink_iters: 3000,
+                limit_factor: 1,
                 strategy: c10::image_case,
                 check: td_images,
             }),
@@ -515,6 +518,7 @@ pub fn def() -> PropDef {
                 cases_quick: 40_000,
                 cases_thorough: 400_000,
                 max_shrink_iters: 1000,
+                limit_factor: 1,
                 strategy: bloom_case,
                 check: bloom_images,
             }),
@@ -524,6 +528,7 @@ pub fn def() -> PropDef {
                 cases_quick: 40_000,
                 cases_thorough: 400_000,
                 max_shrink_iters: 2000,
+                limit_factor: 1,
                 strategy: fi_case,
                 check: fi_images,
             }),
